@@ -141,6 +141,22 @@ def knife_edge(dist: np.ndarray, radius, rel_tol: float, scale: float) -> bool:
 # --------------------------------------------------------------------------- generators
 
 
+UNIT_P = 0.0  # probability of a non-unit length scale; set per property by props.common.run_generated
+UNIT_SEEN: dict = {}
+
+
+def unit_scale(rng) -> float:
+    """Length unit of a generated case: 1 for most, otherwise a power of ten in 1e-3..1e3 (the statements speak
+    about grids and droplets, not about the unit their lengths are measured in)."""
+    import os
+    p = float(os.environ.get("VERIF_UNITSCALE_P", UNIT_P))
+    if p <= 0 or rng.random() >= p:
+        return 1.0
+    u = float(10.0 ** rng.integers(-3, 4))
+    UNIT_SEEN[f"{u:g}"] = UNIT_SEEN.get(f"{u:g}", 0) + 1
+    return u
+
+
 def rand_cart_spec(rng, dim, *, nmin=4, nmax=12, hmin=0.3, hmax=2.5, periodic=None,
                    aniso=True, origin_span=5.0):
     shape = [int(rng.integers(nmin, nmax + 1)) for _ in range(dim)]
@@ -148,10 +164,12 @@ def rand_cart_spec(rng, dim, *, nmin=4, nmax=12, hmin=0.3, hmax=2.5, periodic=No
         h = rng.uniform(hmin, hmax, dim)
     else:
         h = np.full(dim, rng.uniform(hmin, hmax))
+    u = unit_scale(rng)
+    h, origin_span = h * u, origin_span * u
     lo = rng.uniform(-origin_span, origin_span, dim)
     # round to a few decimals so specs stay readable; exact values are whatever results
-    h = np.round(h, 4)
-    lo = np.round(lo, 3)
+    h = np.round(h / u, 4) * u
+    lo = np.round(lo / u, 3) * u
     if periodic is None:
         periodic = [bool(rng.integers(0, 2)) for _ in range(dim)]
     bounds = [[float(lo[i]), float(lo[i] + h[i] * shape[i])] for i in range(dim)]
@@ -161,7 +179,7 @@ def rand_cart_spec(rng, dim, *, nmin=4, nmax=12, hmin=0.3, hmax=2.5, periodic=No
 
 def rand_sym_spec(rng, family, *, nmin=6, nmax=30, hmin=0.3, hmax=2.5):
     n = int(rng.integers(nmin, nmax + 1))
-    h = float(np.round(rng.uniform(hmin, hmax), 4))
+    h = float(np.round(rng.uniform(hmin, hmax), 4)) * unit_scale(rng)
     return {"family": family, "radius": h * n, "shape": [n]}
 
 
@@ -169,9 +187,10 @@ def rand_cyl_spec(rng, *, nmin=6, nmax=24, hmin=0.3, hmax=2.0, periodic_z=None,
                   ratio=(0.5, 2.0)):
     nr = int(rng.integers(nmin, nmax + 1))
     nz = int(rng.integers(nmin, nmax + 1))
-    hr = float(np.round(rng.uniform(hmin, hmax), 4))
-    hz = float(np.round(hr * rng.uniform(*ratio), 4))
-    z0 = float(np.round(rng.uniform(-5, 5), 3))
+    u = unit_scale(rng)
+    hr = float(np.round(rng.uniform(hmin, hmax), 4)) * u
+    hz = float(np.round(hr / u * rng.uniform(*ratio), 4)) * u
+    z0 = float(np.round(rng.uniform(-5, 5), 3)) * u
     if periodic_z is None:
         periodic_z = bool(rng.integers(0, 2))
     return {"family": "cyl", "radius": hr * nr, "bounds_z": [z0, z0 + hz * nz],
